@@ -570,6 +570,36 @@ func body(w *hx.W) {
 			w.Sample(map[string]interface{}{"kind": "random history", "initial_messages": n0, "sessions": ns, "op_codes": ops})
 		}
 	}
+	// long queues: the last session is never polled before the end, so that hundreds of updates
+	// pile up for it (the exhaustive and random histories above keep queues short)
+	nl := w.Pick(60, 900)
+	for i := 0; i < nl; i++ {
+		n0 := rng.Intn(13)
+		var ops []int
+		for k := 120 + rng.Intn(200); k > 0; k-- {
+			switch rng.Intn(10) {
+			case 0, 1, 2:
+				ops = append(ops, rng.Intn(4))
+			case 3, 4:
+				ops = append(ops, 10+rng.Intn(8))
+			case 5, 6:
+				ops = append(ops, 20+rng.Intn(8))
+			case 7:
+				ops = append(ops, 30+rng.Intn(8))
+			case 8:
+				ops = append(ops, 40)
+			default:
+				ops = append(ops, []int{50, 60}[rng.Intn(2)]) // only session 0 polls
+			}
+		}
+		if !w.Mine(i) {
+			continue
+		}
+		runHistory(w, srv, n0, 2, ops)
+		w.CaseStr(fmt.Sprintf("long|%d|%v", n0, ops))
+		w.Class("long-queue")
+		w.Metric("long_queue_histories", 1)
+	}
 	_ = rand.Int
 }
 
@@ -577,7 +607,7 @@ func main() {
 	hx.Main(hx.Spec{
 		ID:    "C07",
 		Level: "exploration",
-		Rule: "histories of QueueNumMessages(+k, k=1..4) / QueueExpunge / QueueMessageFlags (with and without source) / QueueMailboxFlags / session open / close / Poll(allowExpunge true|false): every history of length <= L over a 13-operation alphabet on a 3-message mailbox with 2 sessions (each distinct by construction), plus seeded random histories of length 4..33 with 1..4 sessions and 0..12 initial messages (distinct by hash); " +
+		Rule: "histories of QueueNumMessages(+k, k=1..4) / QueueExpunge / QueueMessageFlags (with and without source) / QueueMailboxFlags / session open / close / Poll(allowExpunge true|false): every history of length <= L over a 13-operation alphabet on a 3-message mailbox with 2 sessions (each distinct by construction), plus seeded random histories of length 4..33 with 1..4 sessions and 0..12 initial messages (distinct by hash), plus long-queue histories (120..319 operations while one session is never polled, then polled once); " +
 			"DecodeSeqNum/EncodeSeqNum probed for every number of every view after every step",
 		Assumptions: []string{
 			"every message has a unique id, passed as the UID of flag updates; client views are reconstructed only from the wire output of real server connections",
